@@ -52,7 +52,7 @@ def gen_value(rng):
   if r < 0.3:
     return {'l': [{'s': 'item %d ' % i * 3} for i in range(rng.randint(4, 12))]}
   if r < 0.38:
-    return rng.choice([{'o': 7}, {'o': 21}, {'o': 22}, {'set': [1, 2]}, {'f': 'inf', 'fin': False}, {'c': '(1+2j)'},
+    return rng.choice([{'o': 7}, {'o': 3}, {'o': 21}, {'o': 22}, {'set': [1, 2]}, {'f': 'inf', 'fin': False}, {'c': '(1+2j)'},
                        {'l': [1, {'o': 8}]}, {'f': 'nan', 'fin': False},
                        # the placeholder skip_unknown leaves for a reference to an unregistered configurable: no literal form
                        {'unk': ['zz.nope', True]}, {'l': [1, {'unk': ['zz.q', False]}]}, {'d': [[{'s': 'k'}, {'unk': ['nope', True]}]]}])
